@@ -222,7 +222,11 @@ matches = z3.Function("re.match(cls._regex,.)", S, B)
 
 def sv_setup(ctx):
     v = z3.String("v")
-    regex = Rec("Pattern", attrs={"pattern": "<pattern>"}, methods={"match": lambda c, s_, a, k: matches(lift(a[0]))})
+    # the sibling methods of a compiled pattern are other predicates of the text (search: a match anywhere; fullmatch: the whole text): a validator that
+    # asks one of them instead of match accepts another language, and is refuted instead of leaving the unit undecided
+    regex = Rec("Pattern", attrs={"pattern": "<pattern>"}, methods={"match": lambda c, s_, a, k: matches(lift(a[0])),
+                                                                       "search": lambda c, s_, a, k: z3.Function("re.search(cls._regex,.)", S, B)(lift(a[0])),
+                                                                       "fullmatch": lambda c, s_, a, k: z3.Function("re.fullmatch(cls._regex,.)", S, B)(lift(a[0]))})
     cls = Rec("RestrictedString", attrs={"_regex": regex})
     return Setup(env={"cls": cls, "v": v}, data={"v": v})
 
